@@ -455,12 +455,30 @@ func runC20(r *ev.Run) {
 				}
 			}
 		}
-		for _, x := range [][]float32{v, w} {
+		// ... and one with components strictly OUTSIDE the trained range (whatever such a component is stored as — only
+		// in-range components carry the precision promise — the caller's vector stays as it was)
+		out := cloneF32(w)
+		for j := range out {
+			if rng.IntN(2) == 0 {
+				out[j] = float32((1.25 + rng.Float64()*6) * absMax * float64(1-2*rng.IntN(2)))
+			}
+		}
+		for xi, x := range [][]float32{v, w, out} {
 			x0 := cloneF32(x)
 			st, err := iq.Quantize(x)
 			if err != nil {
+				if xi == 2 {
+					r.Count("i8-out-of-range-vector-refused", 1)
+					if !sameBits(x, x0) {
+						fail("quant.i8.mutates-input", "int8 quantizer modified an input it refused")
+					}
+					continue
+				}
 				fail("quant.i8.error", err.Error())
 				continue
+			}
+			if xi == 2 {
+				r.Count("i8-out-of-range-vector-quantised", 1)
 			}
 			if !sameBits(x, x0) {
 				fail("quant.i8.mutates-input", "int8 quantizer modified its input")
